@@ -152,7 +152,7 @@ def arm_blocks(f, mf, flag):
     return arms
 
 
-def atomic_conds(blocks, inits=None):
+def atomic_conds(blocks, inits=None, ren=None):
     out = []
     for b in blocks:
         c = C.term_cond(b)
@@ -161,8 +161,38 @@ def atomic_conds(blocks, inits=None):
         c0 = X.strip(c) if c is not None else None
         if isinstance(c0, dict) and not (c0.get("k") == "bin" and c0.get("op") in ("&&", "||")) \
                 and b["term"].get("kind") in ("IfStmt", "BinaryOperator"):
-            out.append(canon(X.show(c0)))
+            t = X.show(c0)
+            for a_, r_ in (ren or {}).items():
+                t = re.sub(r"\b%s\b" % re.escape(a_), r_, t)
+            out.append(canon(t))
     return out
+
+
+def scheme_parser_roles(f):
+    """The locals of a scheme parser by what they hold (the frozen correspondence CANON speaks of them by the names the
+    tree uses today): {actual name: canonical name}."""
+    ren = {}
+    typed = None
+    for b in f["blocks"]:
+        for st in b["stmts"]:
+            if st["k"] != "decl":
+                continue
+            for v in st["vars"]:
+                i0 = X.strip(v["init"]) if v.get("init") is not None else None
+                if not isinstance(i0, dict):
+                    continue
+                calls = [m.get("name") for m in X.walk(i0) if m.get("k") == "call"]
+                ty = (v.get("ty") or "").replace("const ", "")
+                if "get_scheme_type" in calls and ty != "bool":
+                    ren[v["name"]] = "parsed_type"
+                    typed = v["id"]
+                elif ty == "bool" and (any(m.get("k") == "ref" and m.get("id") == typed for m in X.walk(i0)) or "get_scheme_type" in calls):
+                    ren[v["name"]] = "is_input_special"
+                elif "get_special_port" in calls and "int" in ty:
+                    ren[v["name"]] = "urls_scheme_port"
+                elif ty in ("std::string", "std::basic_string<char>") and any(m.get("k") == "ref" and m.get("kind") == "param" for m in X.walk(i0)):
+                    ren[v["name"]] = "_buffer"
+    return {a: r for a, r in ren.items() if a != r}
 
 
 def check_dead_tests(ctx, fx):
@@ -220,9 +250,23 @@ def check_scheme_copies(ctx, fx, rule="I2"):
             ctx.broken("%s: %s<true> not found" % (rule, q))
         f = fs[0]
         mf = MustFlow(f)
-        arms = arm_blocks(f, mf, "is_input_special")
+        ren = scheme_parser_roles(f)
+        flag = ([a for a, r in ren.items() if r == "is_input_special"] or ["is_input_special"])[0]
+        port_local = ([a for a, r in ren.items() if r == "urls_scheme_port"] or ["urls_scheme_port"])[0]
+        arms = arm_blocks(f, mf, flag)
+        in_arm = {b_["id"] for bl in arms.values() for b_ in bl}
+        # code behind the two arms (a tail both share, e.g. the default-port elision hoisted out of them) belongs to both
+        tail = [b_ for b_ in f["blocks"] if b_["id"] not in in_arm and mf.IN.get(b_["id"]) is not None and
+                any(st_["k"] == "decl" and any(v_["name"] == port_local for v_ in st_["vars"]) for st_ in b_["stmts"])]
+        if tail:
+            from lib.loops import dominators
+            dom, _p = dominators(f)
+            t0 = tail[0]["id"]
+            shared = [b_ for b_ in f["blocks"] if b_["id"] not in in_arm and t0 in dom.get(b_["id"], ())]
+            for arm in arms:
+                arms[arm] = arms[arm] + shared
         for arm, blks in arms.items():
-            conds = atomic_conds(blks, C.single_inits(f))      # (a refusal's test may be named: `const bool buffer_is_file = ...`)
+            conds = atomic_conds(blks, C.single_inits(f), ren)      # (a refusal's test may be named: `const bool buffer_is_file = ...`)
             # elision block
             init = None
             clears = []
@@ -230,7 +274,7 @@ def check_scheme_copies(ctx, fx, rule="I2"):
                 for s in b["stmts"]:
                     if s["k"] == "decl":
                         for v in s["vars"]:
-                            if v["name"] == "urls_scheme_port" and v.get("init") is not None:
+                            if v["name"] == port_local and v.get("init") is not None:
                                 init = X.show(X.strip(v["init"]))
                     for n in X.stmt_nodes(s):
                         t = X.show(n)
